@@ -91,10 +91,11 @@ func runC04(c *Ctx) {
 	}
 	var conjs []*conj
 	seen := map[*ssa.Function]bool{}
-	eachInstr(match, func(_ *ssa.BasicBlock, in ssa.Instruction) {
+	// (over Match and the helpers outside the vocabulary it delegates to, which are transparent)
+	eachInstrG(c.P, match, func(_ *ssa.BasicBlock, in ssa.Instruction) {
 		if ci, ok := in.(ssa.CallInstruction); ok {
 			cal := ci.Common().StaticCallee()
-			if cal == nil || seen[cal] || !c.P.IsLibFunc(cal) || cal.Signature.Recv() == nil || cal.Signature.Results().Len() != 1 || typeStr(cal.Signature.Results().At(0).Type()) != "bool" {
+			if cal == nil || seen[cal] || !c.P.IsLibFunc(cal) || c.P.IsNewHelper(cal) || cal.Signature.Recv() == nil || cal.Signature.Results().Len() != 1 || typeStr(cal.Signature.Results().At(0).Type()) != "bool" {
 				return
 			}
 			if cal.Name() == "IsOptionEnabled" || cal.Name() == "IsOptionDisabled" {
